@@ -10,14 +10,27 @@ META = {
     "title": "String and number literals survive generation exactly",
     "level": "proof",
     "design_ref": "DESIGN.md section 6 / C13",
-    "technique": "Coq proof of decode-after-write identity on a Gallina model of the literal writers; "
-                 "model tied to the Rust code by differential runs evaluated inside Coq (vm_compute)",
+    "technique": "Coq proof of decode-after-write identity on Gallina models of the literal writers (strings: every "
+                 "quoting form; numbers: the hexadecimal, binary, non-finite and integer-valued decimal arms of "
+                 "write_number against the model of NumberExpression::from_str); models tied to the Rust code by "
+                 "differential runs evaluated inside Coq (vm_compute)",
     "level_text": "Machine-checked theorems (Coq 8.16 kernel) that the modelled writer's output decodes to the "
                   "same bytes for every byte string; the model is compared with the compiled Rust functions "
                   "on exhaustive short strings and structured long ones on every run, and the Rust output is "
-                  "additionally decoded by the Coq reference decoder.",
+                  "additionally decoded by the Coq reference decoder. Numbers: theorems that every hexadecimal / "
+                  "binary node (any u64 value, any u32 exponent) is written to a text that darklua's reader model reads "
+                  "back as the same node, and that for every node the writer model covers (also the non-finite values "
+                  "and integer-valued decimal nodes below 2^53, by bit pattern) the written text passes the very oracle "
+                  "the per-run check evaluates (C13_write_number_model_value_kept); on every run the bytes written by "
+                  "the real write_number are compared with the writer model on those arms, the reader model with the "
+                  "real from_str on literal texts, and every written number (all arms, incl. fractions and recorded "
+                  "exponents, which depend on Rust's float printer and are NOT covered by a theorem) is read back "
+                  "with exact decimal-to-binary conversion.",
     "level_note": "Trusted: Coq kernel + vm_compute; the reference decoders in Model/StringLit.v (specification); "
-                  "the harness and hex transport; decimal<->binary conversion of numbers is an oracle (Rust fmt/parse).",
+                  "Model/NumberLit.v (reader) and Lib/F64.v exact decimal->binary conversion (specification side of the number "
+                  "oracle); the harness and hex transport; the fraction / recorded-exponent arms of write_number rely on "
+                  "Rust's float formatting and are validated per run only. One theorem (C13_write_dec_int_reads_value) uses "
+                  "the four classical / extensionality axioms of the standard library through Flocq; all others are closed.",
     "trusted_base": ["Coq 8.16.1 kernel, vm_compute", "Model/StringLit.v reference decoders (specification)",
                      "harness/src/c13.rs + hex transport", "rustc/std for fmt and parse of f64"],
     "allowed_axioms": FLOCQ_AXIOMS,  # used by C13_write_dec_int_reads_value only (float validity from Flocq)
